@@ -32,6 +32,35 @@ claimed={
    text='Every route pattern registered by api.NewRouter (chi.Walk) x ledger names x path variants x 12 methods x header sets (method-override headers, idempotency key) x bodies (transaction, bulk with every action, metadata, script) x query strings, sent to a read-only router over a recording backend: zero calls to the four write methods; the same request set reaches all four when not read-only (non-vacuity).',
    note='httptest delivery (no proxy in front); no-op auth.'),
 }
+
+E1_NOTE='Instrumented packages (command, batching, job, collectionutils linked list; vm map iteration fixed to sorted order) communicate only through shim objects and harness points; pond replaced by a spawn-per-submit stand-in; memstore.InsertLogs atomic (the real one is one SQL transaction); verdict holds for the listed scenarios (2-3 request threads), up to the stated number of deviations from the default schedule.'
+E1_TECH='stateless model checking of the implementation: the real concurrent core is rebuilt with sync/atomic/channel/select/go operations routed to a controlled scheduler; exhaustive DFS by prefix replay over all schedules (and crash / store-fault points) within a deviation bound'
+claimed.update({
+ 'C02':dict(engine='gosched',level='model_checking',technique=E1_TECH+'; log-order serialisability oracle',design='§7-C02, §3',
+   text='11 scenarios of 2-3 racing create/revert requests on shared funds (source named literally, by variable, by meta(), posting mode; reverts; declared overdraft; chains; disjoint control) on the real Commander+locker+batcher under the controlled scheduler; every schedule within 3 deviations (quick; 4 thorough): the persisted log replayed in order never takes a source below what its request declared, and every acknowledged request is in the log.',
+   note=E1_NOTE),
+ 'C05':dict(engine='gosched',level='model_checking',technique=E1_TECH+' incl. a crash at every scheduling point followed by restart and more writes; recomputed hash-chain oracle',design='§7-C05',
+   text='Concurrent create/revert/metadata writers, with and without a crash at any scheduling point followed by re-initialisation from the store and further writes: in every schedule within the bound the persisted log has ids 0,1,2.. in insertion order, each hash recomputed from predecessor+content matches, and transaction ids increase by one in log order.',
+   note=E1_NOTE),
+ 'C06':dict(engine='gosched',level='model_checking',technique=E1_TECH+' with InsertLogs / read fault injection and crash points; ack-implies-persisted and rows<->requests bijection oracle',design='§7-C06',
+   text='Concurrent writes with injected InsertLogs failures, read failures and crashes at every point: a request that returns success already has its (single) log entry persisted with the returned content at the instant it returns; requests that return an error have none; no entry exists that no request produced.',
+   note=E1_NOTE),
+ 'C07':dict(engine='gosched',level='model_checking',technique=E1_TECH+' incl. crash-and-retry; at-most-one-effect-per-key oracle',design='§7-C07',
+   text='2-3 duplicates of one idempotency key for every write kind (create, revert, set metadata, delete metadata), concurrent, sequentialised by the scheduler, and retried after a crash at any point: writes carrying one key take effect at most once and every success returns that effect (transaction id, postings).',
+   note=E1_NOTE+' Reusing one key across different write kinds is not exercised.'),
+ 'C10':dict(engine='gosched',level='model_checking',technique=E1_TECH+'; exact-inverse / once-only / no-overdraft oracle',design='§7-C10',
+   text='Racing reverts of the same transaction (2-3, forced/unforced, crash + retry), reverts of different transactions sharing an account, revert racing a spend or a metadata write: at most one REVERTED entry per target and at most one success, postings are the exact inverse with the revert marker, and an unforced revert never overdraws in log-order replay.',
+   note=E1_NOTE+' The "balances restored when nothing else touched them" clause is covered by the exact-inverse check.'),
+ 'C11':dict(engine='gosched',level='model_checking',technique=E1_TECH+' incl. crash-and-retry; at-most-one-commit-per-reference oracle',design='§7-C11',
+   text='2-3 creates sharing a reference, competitor succeeding or failing, distinct references as control, crash + retries: at most one committed transaction carries the reference, every other attempt reports an error (conflict, or its own insufficient funds) and leaves no entry.',
+   note=E1_NOTE),
+ 'C15':dict(engine='gosched',level='model_checking',technique=E1_TECH+' on DefaultLocker; exclusion / deadlock / leftover-probe oracle',design='§7-C15',
+   text='Every multiset of 3 lock requests over 6 read/write shapes on accounts {a,b} (56 populations), each also with one cancellable request cancelled at any time (select tie-breaks are explorer choices); 4-request populations in thorough: no conflicting overlap when Lock returns, no deadlock, and after everything finished a fresh W(a,b) request is granted at once (nothing left behind by a cancelled request).',
+   note='Only the locker and the linked list are in the closed system; contexts are cancelled from a scheduled thread.'),
+ 'C16':dict(engine='gosched',level='model_checking',technique=E1_TECH+'; events recorded through the real ledger monitor with the persisted-log count at publish time',design='§7-C16',
+   text='Every write kind, real / preview / replayed through an idempotency key, concurrent, with crashes: every published message decodes to a log entry already persisted at publish time with the same content (for a revert: which transaction was reverted and which reverts it), and every acknowledged write has at least one message (crash executions exempt).',
+   note=E1_NOTE),
+})
 order=[p['id'] for p in props]
 checks=[]
 for pid in order:
@@ -54,6 +83,7 @@ m={"version":1,"setup_cmd":"./setup.sh",
  "hooks":{"guard":"verif","enable":"no source hooks in /repo: instrumentation is injected at build time with go build -overlay (generated from the current /repo files by /verif/engine/instr; added files carry //go:build verif)","baseline_off_cmd":json.load(open('/root/.vp/BASELINE.json'))['cmd'],"source_commits":[],"add_only":True},
  "engines":[
   {"name":"nsgen","path":"/verif/xverif/lib/nsgen","serves_properties":["C01","C03","C08","C12"],"kind_free_text":"bounded-exhaustive Numscript program/input enumerator + reference semantics, run against the real compiler and VM"},
+  {"name":"gosched","path":"/verif/engine/verifrt + /verif/xverif/cmd/instr + /verif/xverif/lib/explore + /verif/xverif/cmd/vsched","serves_properties":["C02","C05","C06","C07","C10","C11","C15","C16"],"kind_free_text":"controlled cooperative scheduler (verifrt) + source instrumenter + stateless DFS explorer with deviation bounding, sharded over worker processes; runs the real Commander / locker / batcher / job runner"},
   {"name":"vcheck","path":"/verif/xverif/cmd/vcheck","serves_properties":["C09","C13","C14","C18","C19"],"kind_free_text":"small exhaustive enumerators driving the real Commander / routers / codecs (memstore, recording backend)"},
  ],
  "checks":checks,"not_applicable":na,
